@@ -115,6 +115,20 @@ func ZZ_C04_Step() {
 			return
 		}
 		e := st.pool[vrt.Choose("which", len(st.pool))]
+		// where the transfer came from decides where the refund goes: a hub account, another external chain (the refund
+		// is a new transfer on that chain), or nowhere (system transfer)
+		switch vrt.Choose("origin", 3) {
+		case 1:
+			other := "minter"
+			if chain == "minter" {
+				other = "ethereum"
+			}
+			e.RefundChainId, e.RefundAddress, e.Sender = other, "0x00000000000000000000000000000000000000aa", types.TempAddress.String()
+			k.setUnbatchedSendToExternal(ctx, chain, e) // same key (id, fee): overwrites
+		case 2:
+			e.RefundChainId, e.RefundAddress, e.Sender = "", "", types.TempAddress.String()
+			k.setUnbatchedSendToExternal(ctx, chain, e)
+		}
 		var err error
 		if vrt.Panics(func() { err = k.cancelSendToExternal(ctx, chain, e.Id, e.Sender) }) {
 			return
